@@ -47,6 +47,8 @@ def run(ctx):
     ctx.distinct = ac.distinct(progs)
     ac.mc_corpus(ctx, progs[::5] if not th else progs[::2], pieces=10)      # the same equalities on the specification
     ac.judge(ctx, progs, "c15")
+    ac.judge(ctx, progs[::3], "c15chk", profile="checked")     # also on the build with integer-overflow checks
+    ctx.extra["builds"] = ["release", "checked (overflow checks + debug assertions) for a sample"]
     return vlib.finish(ctx, rule="pairs (Scope::new, Scope::raw) and (Package::new, PackageBuilder incl. Default) over paths of 1..4 "
                        "segments and child lists from the C06 generator; body sizes 0..130 and around 4095 (thorough: 0..4200 "
                        "exhaustively and 2^20 +- 12); borrowed/owned strings; usize/u64 integers; predicate: the two observed byte "
